@@ -160,12 +160,16 @@ def serde_names(m, indent):
 def handler_src(prog, part, m, in_trait):
     """Signature (trait) or echo implementation of one handler."""
     ctx_ty, ctx_fn = CTX[m.get("ctxkind") or m["kind"]]      # (the context type may be written as that of a sibling kind)
+    if prog["id"] == "L1":      # (... and with its lifetime spelled out as an anonymous one)
+        ctx_ty += "<'_>"
     # the type parameter is spelled `Self::ItemT` in an interface (and its impl) and `T` in the contract
     gen_name = "T" if part["id"] == "own" else "Self::ItemT"
     # argument attributes are written where a sylvia macro sees them: the interface trait and the contract impl
     # (the plain `impl Interface for Contract` block is not a macro input)
     with_attr = in_trait or part["id"] == "own"
-    params = "".join(", %s%s: %s" % (PARAM_ATTR.get(a["t"], "") if with_attr else "", rn(a), gen_name if a["t"] == "GenT" else TYPES[a["t"]][0]) for a in m["args"])
+    # (an argument may be declared `mut` where the method has a body: the contract's own impl block)
+    params = "".join(", %s%s%s: %s" % (PARAM_ATTR.get(a["t"], "") if with_attr else "", "mut " if (a.get("mut") and not in_trait and part["id"] == "own") else "",
+                                       rn(a), gen_name if a["t"] == "GenT" else TYPES[a["t"]][0]) for a in m["args"])
     rname = m.get("ret") or m.get("resp") or "QResp"
     ret = (gen_name if rname == "GenT" else RESP_TY[rname]) if m["kind"] == "query" else "Response"       # what the handler returns
     explicit = m["kind"] == "query" and m.get("explicit")
